@@ -163,11 +163,17 @@ def run(ctx, replay):
         ctx.cov["model_depth"] = r["depth"]
         ctx.log("TLC exhaustive (safety): %d distinct states, %d transitions, depth %d, %.1fs" % (
             r["distinct"], r["generated"], r["depth"], r["wall"]))
-        rl = ctx.tlc_expect_ok("TimeWheel", None, name="live", workers=8, timeout=1200,
-                               cfg_text=cfg(2 if thorough else 1, (0, 1) if thorough else (0,), ((), ("p1",)),
-                                            ("TRUE", "FALSE"), (1,), 1, tail=LIVE))
-        ctx.cov["liveness_states"] = rl["distinct"]
-        ctx.log("TLC liveness (weak fairness): %d distinct states, %.1fs" % (rl["distinct"], rl["wall"]))
+        # liveness under weak fairness (the tableau makes this expensive: smaller bounds)
+        lives = [(1, (0,), ((), ("p1",)), 1)]
+        if thorough:
+            lives = [(1, (0, 1), ((), ("p1",)), 2), (2, (0,), ((),), 1)]
+        nl = 0
+        for i, (n, dues, retry, mt) in enumerate(lives):
+            rl = ctx.tlc_expect_ok("TimeWheel", None, name="live%d" % i, workers=8, timeout=1500,
+                                   cfg_text=cfg(n, dues, retry, ("TRUE", "FALSE"), (1,), mt, tail=LIVE))
+            nl += rl["distinct"]
+            ctx.log("TLC liveness (weak fairness): %d distinct states, %.1fs" % (rl["distinct"], rl["wall"]))
+        ctx.cov["liveness_states"] = nl
         # the as-is deviation must be found by the same invariant (non-vacuity)
         ra = ctx.tlc("TimeWheel", None, name="asis", workers=4, timeout=600,
                      cfg_text=cfg(1, (0,), ((),), ("TRUE",), (1,), 1, devs=["AddCloseWindow"],
